@@ -410,11 +410,16 @@ func (r *scenarioRun) check() {
 	resident := make([]map[string]*mapRec, len(e.cus))   // CP-side: map sent .. CU sent completion
 	residentCU := make([]map[string]bool, len(e.cus))    // CU-side: delivered .. CU sent completion
 	slotUse := make([][]int, len(e.cus))
+	regUse := make([][]int, len(e.cus)) // VGPRs per lane in use per SIMD (demand rounded up to 4)
+	simdFull := map[[2]int]bool{}       // (cu, simd) that could not have taken one more wavefront of the kernel just placed
+	var bigVGPRGroups int64
 	for i := range resident {
 		resident[i] = map[string]*mapRec{}
 		residentCU[i] = map[string]bool{}
 		slotUse[i] = make([]int, c.NumSIMD)
+		regUse[i] = make([]int, c.NumSIMD)
 	}
+	round4 := func(n int) int { return (n + 3) / 4 * 4 }
 	peak := 0
 	var nMaps, nCompMsgs, nBatched, nRsp int64
 	sCap, vCap, lCap := -1, -1, -1 // bytes; bytes per lane; bytes
@@ -491,8 +496,15 @@ func (r *scenarioRun) check() {
 					r.checkDisjoint(o, m)
 				}
 				resident[ci][msg.ID] = m
+				if l.spec.VGPR > 64 {
+					bigVGPRGroups++
+				}
 				for _, loc := range msg.Wavefronts {
 					if loc.SIMDID >= 0 && loc.SIMDID < c.NumSIMD {
+						regUse[ci][loc.SIMDID] += round4(l.spec.VGPR)
+						if slotUse[ci][loc.SIMDID]+1 >= slotCap || (c.VGPRs >= 0 && regUse[ci][loc.SIMDID]+round4(l.spec.VGPR) > c.VGPRs/64) {
+							simdFull[[2]int{ci, loc.SIMDID}] = true
+						}
 						slotUse[ci][loc.SIMDID]++
 						if slotUse[ci][loc.SIMDID] > slotCap {
 							r.viol("C09|capacity|wavefront-slots", fmt.Sprintf("CU%d SIMD%d: %d wavefronts resident at cycle %d, pool holds %d", ci, loc.SIMDID, slotUse[ci][loc.SIMDID], ev.Cycle, slotCap),
@@ -529,6 +541,7 @@ func (r *scenarioRun) check() {
 					for _, loc := range m.req.Wavefronts {
 						if loc.SIMDID >= 0 && loc.SIMDID < c.NumSIMD {
 							slotUse[m.cu][loc.SIMDID]--
+							regUse[m.cu][loc.SIMDID] -= round4(m.launch.spec.VGPR)
 						}
 					}
 				}
@@ -644,6 +657,18 @@ func (r *scenarioRun) check() {
 			rec.Count("filtered_launches", 1)
 		}
 	}
+	if c.Preset == "r9nano" || c.Preset == "mi300a" { // the shipped CU shapes
+		rec.Count("shape_"+c.Preset+"_scenarios", 1)
+		rec.Count("shape_"+c.Preset+"_wgs_mapped", nMaps)
+		rec.Count("shape_"+c.Preset+"_groups_placed_with_more_than_64_vgprs", bigVGPRGroups)
+		rec.Count("shape_"+c.Preset+"_simds_filled_to_refusal", int64(len(simdFull)))
+		for _, l := range e.launches {
+			if l.spec.Probe == "" && len(l.mapped) > 0 {
+				rec.Distinct("shape_"+c.Preset+"_vgpr_demand", itoa(l.spec.VGPR))
+				rec.Distinct("shape_"+c.Preset+"_demand", fmt.Sprintf("v%d/s%d/l%d/w%d", l.spec.VGPR, l.spec.SGPR, l.spec.LDS, l.spec.wavefrontsPerFullWG()))
+			}
+		}
+	}
 	rec.Distinct("alg_cu_disp", fmt.Sprintf("%s/%d/%d", s.Alg, s.NCU, s.NDisp))
 	rec.Distinct("cu_preset_batch", c.Preset+"/"+c.Batch)
 	if overlapping && anyRefused && !e.dead {
@@ -681,7 +706,9 @@ func (r *scenarioRun) checkPlacement(m *mapRec, sCap, vCap, lCap int) {
 			r.viol("C09|capacity|sgpr", fmt.Sprintf("launch %d wg %v on CU%d: SGPR bytes [%d,%d) exceed the file of %d bytes", m.launch.idx, m.wg, m.cu, loc.SGPROffset, loc.SGPROffset+4*k.SGPR, sCap), map[string]any{"map": m.describe()})
 		}
 		if vCap >= 0 && k.VGPR > 0 && loc.VGPROffset+4*k.VGPR > vCap {
-			r.viol("C09|capacity|vgpr", fmt.Sprintf("launch %d wg %v on CU%d SIMD%d: per-lane VGPR bytes [%d,%d) exceed %d", m.launch.idx, m.wg, m.cu, loc.SIMDID, loc.VGPROffset, loc.VGPROffset+4*k.VGPR, vCap), map[string]any{"map": m.describe()})
+			// judged against the register file the CU advertises (registers per SIMD / 64 lanes * 4 bytes), not against anything the pool derives from it
+			r.viol("C09|capacity|vgpr-range-beyond-register-file|"+c.Preset, fmt.Sprintf("launch %d wg %v on CU%d SIMD%d (%s shape: %d VGPRs per lane): per-lane VGPR bytes [%d,%d) lie beyond the register file of %d bytes per lane",
+				m.launch.idx, m.wg, m.cu, loc.SIMDID, c.Preset, c.VGPRs/64, loc.VGPROffset, loc.VGPROffset+4*k.VGPR, vCap), map[string]any{"map": m.describe()})
 		}
 		if lCap >= 0 && k.LDS > 0 && loc.LDSOffset+k.LDS > lCap {
 			r.viol("C09|capacity|lds", fmt.Sprintf("launch %d wg %v on CU%d: LDS bytes [%d,%d) exceed %d", m.launch.idx, m.wg, m.cu, loc.LDSOffset, loc.LDSOffset+k.LDS, lCap), map[string]any{"map": m.describe()})
